@@ -127,14 +127,23 @@ def cut_type(src, kind, name):
     m = pat.search(src)
     if not m:
         raise LostAnchor('lost anchor: %s %s' % (kind, name))
+    # include attribute / doc lines directly above the item
+    a = m.start()
+    while a > 0:
+        pl = src.rfind('\n', 0, a - 1) + 1
+        prev = src[pl:a - 1].strip() if a - 1 >= pl else ''
+        if prev.startswith('#[') or prev.startswith('///'):
+            a = pl
+        else:
+            break
     if m.group(1) == '{':
         j = match_brace(src, m.end() - 1)
-        return src[m.start():j + 1], line_of(src, m.start())
+        return src[a:j + 1], line_of(src, m.start())
     if m.group(1) == '(':
         j = match_brace(src, m.end() - 1)
         k = src.index(';', j)
-        return src[m.start():k + 1], line_of(src, m.start())
-    return src[m.start():m.end()], line_of(src, m.start())
+        return src[a:k + 1], line_of(src, m.start())
+    return src[a:m.end()], line_of(src, m.start())
 
 
 def cut_const(src, name):
